@@ -19,6 +19,17 @@ Definition build_scopes (l : language) (tokens : list token) : res (list (scope0
       end
   end.
 
+(* position just past the last character of a token (its text may contain line breaks) *)
+Fixpoint after_last_newline (v : pystr) (nl : Z) (cur : Z) : Z * Z :=   (* (newlines seen, chars since the last one) *)
+  match v with
+  | [] => (nl, cur)
+  | c :: r => if c =? 10 then after_last_newline r (nl + 1) 0 else after_last_newline r nl (cur + 1)
+  end.
+Definition end_location (t : token) : Location :=
+  let '(nl, cur) := after_last_newline (t_value t) 0 0 in
+  if nl =? 0 then mkLoc (t_line t) (t_col t + Z.of_nat (length (t_value t)))
+  else mkLoc (t_line t + nl) (cur + 1).
+
 Definition measure (code : list token) (sc : scope0 * list scope0) : res Measurement :=
   let '(s, children) := sc in
   match nth_error code (h_name (s_header s)), nth_error code (h_start (s_header s)) with
@@ -30,7 +41,7 @@ Definition measure (code : list token) (sc : scope0 * list scope0) : res Measure
           | None => Err IndexError
           | Some lt =>
               OK (mkMeas (t_value nm) (mkLoc (t_line st) (t_col st))
-                         (mkLoc (t_line lt) (t_col lt + Z.of_nat (length (t_value lt))))
+                         (end_location lt)
                          (count_lines code s children))
           end
       end
